@@ -319,8 +319,8 @@ def _xfilter(accumulator, test_range, condition, operating_range):
                 _ = lambda v: re.escape(v.replace('~?', '?').replace('~*', '*'))
                 match = re.compile(''.join(sum(zip(
                     map(_, _re_condition.split(condition)),
-                    tuple(map(lambda v: '.%s' % v, it)) + ('',)
-                ), ()))).match
+                    tuple(map(lambda v: '.' if v == '?' else '.*', it)) + ('',)
+                ), ())), re.IGNORECASE | re.DOTALL).fullmatch
                 f = lambda v: isinstance(v, str) and bool(match(v))
                 b = np.vectorize(f, otypes=[bool])(test_range['raw'])
                 try:
@@ -343,11 +343,20 @@ def _xfilter(accumulator, test_range, condition, operating_range):
         condition = _text2num(condition)
 
     from .operators import _get_type_id
+    ordering = operator not in ('=', '<>')
     type_id, operator = _get_type_id(condition), LOGIC_OPERATORS[operator]
+    if type_id == 1:  # Text is compared ignoring the case.
+        condition = condition.upper()
 
     @functools.lru_cache()
     def check(value):
-        return _get_type_id(value) == type_id and operator(value, condition)
+        if value is sh.EMPTY:  # A blank is an empty text without order.
+            if ordering:
+                return False
+            value = ''
+        if _get_type_id(value) != type_id:
+            return False
+        return operator(value.upper() if type_id == 1 else value, condition)
 
     if is_number(condition):
         if 'num' not in test_range:
@@ -367,7 +376,7 @@ _xfilter = np.vectorize(_xfilter, otypes=[object], excluded={0, 1, 3})
 def xfilter(accumulator, test_range, condition, operating_range=None):
     operating_range = test_range if operating_range is None else operating_range
     # noinspection PyTypeChecker
-    test_range = {'raw': replace_empty(test_range, '')}
+    test_range = {'raw': test_range}
     res = _xfilter(accumulator, test_range, condition, operating_range)
     return res.view(Array)
 
